@@ -313,10 +313,10 @@ def _span(case, sig):
         w = np64(_apply(agg_spec, J, rseed, weights=True))
         scale = float(np.abs(w) @ np.linalg.norm(Jn, axis=1)) + 1e-300
         comb = w @ Jn
-        if w.shape != (m,) or float(np.abs(out - comb).max()) > 64 * (m + n) * eps * scale:
+        if w.shape != (m,) or not (float(np.abs(out - comb).max()) <= 64 * (m + n) * eps * scale):  # (NaN-proof)
             return fail(sig, nontrivial, "C08.span", "output differs from weighting(J) @ J", out, comb, weights=w)
     tol = max(_rtol(agg_spec, Jn, eps), 64 * (m + n) * eps) * scale if agg_spec["name"] == "ConFIG" else 64 * (m + n) * eps * scale
-    if float(np.linalg.norm(resid)) > tol:
+    if not (float(np.linalg.norm(resid)) <= tol):
         return fail(sig, nontrivial, "C08.span", "output has a component outside the row space of J",
                     float(np.linalg.norm(resid)), {"tol": tol}, out=out, rank=rank)
     return ok(sig, nontrivial)
@@ -349,11 +349,11 @@ def _compare(case, sig, key, J, J2, back, what, extra_zero=None):
         if wa.shape != wb.shape or float(np.abs(wa - wb).max(initial=0.0)) > 1e-6:
             return fail(sig, nontrivial, key, what + " (Krum selects different rows)", wb, wa, J=Jn if Jn.size <= 400 else None)
     tol = _rtol(agg_spec, Jn, eps) * _scale(agg_spec, J, rseed)
-    if a.shape != b.shape or not np.all(np.isfinite(b_full)) or float(np.abs(a - b).max()) > tol:
+    if a.shape != b.shape or not np.all(np.isfinite(b_full)) or not (float(np.abs(a - b).max()) <= tol):
         return fail(sig, nontrivial, key, what, b, a, tol=tol, J=Jn)
     if extra_zero is not None:
         z = b_full[extra_zero]
-        if float(np.abs(z).max(initial=0.0)) > tol:
+        if not (float(np.abs(z).max(initial=0.0)) <= tol):
             return fail(sig, nontrivial, key, "the coordinates of the inserted zero columns are not zero", z, 0.0)
     return ok(sig, nontrivial)
 
